@@ -32,9 +32,10 @@ import (
 
 type cliCase struct {
 	Scheme  string   `json:"scheme"`  // c16mysql | c16postgres
-	Cmd     string   `json:"cmd"`     // apply | inspect
+	Cmd     string   `json:"cmd"`     // apply | inspect | diff
 	Current string   `json:"current"` // empty | v1 | v2
 	Desired string   `json:"desired"` // v1 | v2 | two (apply only)
+	Dev     string   `json:"dev,omitempty"` // diff: "" (no --dev-url) | schema (bound to a third schema) | realm (not bound)
 	Args    []string `json:"args"`    // extra flags
 }
 
@@ -112,15 +113,19 @@ func (fakeConn) Begin() (driver.Tx, error)                         { return fake
 func (fakeTx) Commit() error                                       { return nil }
 func (fakeTx) Rollback() error                                     { return nil }
 
-func register(name string, d *fakeDriver, m schemahcl.Marshaler, e schemahcl.Evaluator) {
+// register: every opened client gets its own driver, whose "database" is chosen by the schema the URL
+// is bound to (mk).
+func register(name string, mk func(boundTo string) *fakeDriver, m schemahcl.Marshaler, e schemahcl.Evaluator) {
+	d := mk(marker)
 	sqlclient.Register(
 		name,
 		sqlclient.OpenerFunc(func(_ context.Context, u *url.URL) (*sqlclient.Client, error) {
+			s := strings.TrimPrefix(u.Path, "/")
 			return &sqlclient.Client{
 				Name:   name,
 				DB:     sql.OpenDB(fakeConnector{}),
-				Driver: d,
-				URL:    &sqlclient.URL{URL: u, DSN: u.String(), Schema: strings.TrimPrefix(u.Path, "/")},
+				Driver: mk(s),
+				URL:    &sqlclient.URL{URL: u, DSN: u.String(), Schema: s},
 			}, nil
 		}),
 		sqlclient.RegisterCodec(m, e),
@@ -260,7 +265,14 @@ table "t_other" {
 }
 `
 
-func doc(scheme, which string) string {
+const (
+	otherSchema = "yyotheryy"
+	devSchema   = "wwdevww"
+)
+
+func doc(scheme, which string) string { return docOf(scheme, which, marker) }
+
+func docOf(scheme, which, name string) string {
 	var d string
 	my := scheme == "c16mysql"
 	switch {
@@ -279,7 +291,7 @@ func doc(scheme, which string) string {
 	case which == "two":
 		d = pgV2 + twoExtra
 	}
-	return strings.ReplaceAll(d, "$S", marker)
+	return strings.ReplaceAll(d, "$S", name)
 }
 
 func TestCLI(t *testing.T) {
@@ -292,24 +304,39 @@ func TestCLI(t *testing.T) {
 		t.Fatal(err)
 	}
 	obs.Case = cs
-	current := func(scheme string) func() *schema.Schema {
+	// the "database" behind a URL: the marker schema holds the current state, the other schema (schema
+	// diff --to) the desired one, anything else (dev URLs) is empty.
+	current := func(scheme, boundTo string) func() *schema.Schema {
 		return func() *schema.Schema {
+			name, which := boundTo, "empty"
+			switch boundTo {
+			case marker:
+				which = cs.Current
+			case otherSchema:
+				which = cs.Desired
+			case "":
+				name = devSchema
+			}
 			var r schema.Realm
 			var err error
 			if scheme == "c16mysql" {
-				err = mysql.EvalHCLBytes([]byte(doc(scheme, cs.Current)), &r, nil)
+				err = mysql.EvalHCLBytes([]byte(docOf(scheme, which, name)), &r, nil)
 			} else {
-				err = postgres.EvalHCLBytes([]byte(doc(scheme, cs.Current)), &r, nil)
+				err = postgres.EvalHCLBytes([]byte(docOf(scheme, which, name)), &r, nil)
 			}
 			if err != nil {
 				panic(err)
 			}
-			s, _ := r.Schema(marker)
+			s, _ := r.Schema(name)
 			return s
 		}
 	}
-	register("c16mysql", &fakeDriver{Differ: mysql.DefaultDiff, planner: mysql.DefaultPlan, current: current("c16mysql")}, mysql.MarshalHCL, mysql.EvalHCL)
-	register("c16postgres", &fakeDriver{Differ: postgres.DefaultDiff, planner: postgres.DefaultPlan, current: current("c16postgres")}, postgres.MarshalHCL, postgres.EvalHCL)
+	register("c16mysql", func(b string) *fakeDriver {
+		return &fakeDriver{Differ: mysql.DefaultDiff, planner: mysql.DefaultPlan, current: current("c16mysql", b)}
+	}, mysql.MarshalHCL, mysql.EvalHCL)
+	register("c16postgres", func(b string) *fakeDriver {
+		return &fakeDriver{Differ: postgres.DefaultDiff, planner: postgres.DefaultPlan, current: current("c16postgres", b)}
+	}, postgres.MarshalHCL, postgres.EvalHCL)
 	dir := t.TempDir()
 	os.Setenv("HOME", dir)
 	p := filepath.Join(dir, "schema.hcl")
@@ -323,6 +350,16 @@ func TestCLI(t *testing.T) {
 		args = append([]string{"schema", "apply", "--url", u, "--to", "file://" + p}, cs.Args...)
 	case "inspect":
 		args = append([]string{"schema", "inspect", "--url", u}, cs.Args...)
+	case "diff":
+		// both states are connections bound to a schema (of different names)
+		args = []string{"schema", "diff", "--from", u, "--to", cs.Scheme + "://localhost:3306/" + otherSchema}
+		switch cs.Dev {
+		case "schema":
+			args = append(args, "--dev-url", cs.Scheme+"://localhost:3306/"+devSchema)
+		case "realm":
+			args = append(args, "--dev-url", cs.Scheme+"://localhost:3306/")
+		}
+		args = append(args, cs.Args...)
 	default:
 		t.Fatal("unknown cmd")
 	}
